@@ -529,3 +529,55 @@ func GuardsOnEdge(pred, succ *ssa.BasicBlock) []Guard {
 	}
 	return gs
 }
+
+// NarrowedIn reports whether the chain of conversions Strip removes from v contains an integer conversion to a type
+// of fewer bits than v itself has (the value arrives with fewer significant bits than its destination could hold).
+func NarrowedIn(v ssa.Value) bool {
+	bits := func(t types.Type) int {
+		b, ok := t.Underlying().(*types.Basic)
+		if !ok || b.Info()&types.IsInteger == 0 {
+			return 0
+		}
+		switch b.Kind() {
+		case types.Int8, types.Uint8:
+			return 8
+		case types.Int16, types.Uint16:
+			return 16
+		case types.Int32, types.Uint32:
+			return 32
+		}
+		return 64
+	}
+	dst := bits(v.Type())
+	for {
+		switch x := v.(type) {
+		case *ssa.ChangeType:
+			v = x.X
+		case *ssa.Convert:
+			if b := bits(x.Type()); dst != 0 && b != 0 && b < dst {
+				return true
+			}
+			v = x.X
+		case *ssa.MakeInterface:
+			v = x.X
+		case *ssa.ChangeInterface:
+			v = x.X
+		default:
+			return false
+		}
+	}
+}
+
+// UnboundMethod: for the wrapper go/ssa creates for a method value (x.m used as a func value) it returns the method
+// itself; any other function is returned unchanged.
+func (p *Prog) UnboundMethod(fn *ssa.Function) *ssa.Function {
+	if fn == nil || !strings.HasPrefix(fn.Synthetic, "bound method wrapper") {
+		return fn
+	}
+	if obj, ok := fn.Object().(*types.Func); ok {
+		if m := p.SSA.FuncValue(obj); m != nil {
+			return m
+		}
+	}
+	return fn
+}
